@@ -28,6 +28,39 @@ type fakeConn struct {
 
 func (c *fakeConn) Close() error { c.mu.Lock(); c.closed++; c.mu.Unlock(); return nil }
 
+// c18Dialer runs ech.Dialer[T] with T either the concrete *fakeConn or an interface
+// type that *fakeConn implements (Dialer[net.Conn]-style instantiations).
+type c18Dialer struct {
+	MaxConcurrency   int
+	ConcurrencyDelay time.Duration
+	Timeout          time.Duration
+	Resolver         *ech.Resolver
+	Iface            bool
+	DialFunc         func(ctx context.Context, network, addr string, tc *tls.Config) (*fakeConn, error)
+}
+
+type c18Closer interface{ Close() error }
+
+func (d *c18Dialer) Dial(ctx context.Context, network, addr string, tc *tls.Config) (*fakeConn, error) {
+	if !d.Iface {
+		dd := &ech.Dialer[*fakeConn]{MaxConcurrency: d.MaxConcurrency, ConcurrencyDelay: d.ConcurrencyDelay, Timeout: d.Timeout, Resolver: d.Resolver, DialFunc: d.DialFunc}
+		return dd.Dial(ctx, network, addr, tc)
+	}
+	dd := &ech.Dialer[c18Closer]{MaxConcurrency: d.MaxConcurrency, ConcurrencyDelay: d.ConcurrencyDelay, Timeout: d.Timeout, Resolver: d.Resolver}
+	dd.DialFunc = func(ctx context.Context, network, addr string, tc *tls.Config) (c18Closer, error) {
+		c, err := d.DialFunc(ctx, network, addr, tc)
+		if c == nil {
+			return nil, err
+		}
+		return c, err
+	}
+	c, err := dd.Dial(ctx, network, addr, tc)
+	if c == nil {
+		return nil, err
+	}
+	return c.(*fakeConn), err
+}
+
 type c18Behaviour struct {
 	Kind      string        `json:"kind"` // ok, fail, hang, ok_ignore_ctx, fail_ignore_ctx, reject_retry
 	D         time.Duration `json:"d"`
@@ -87,6 +120,7 @@ func TestC18(t *testing.T) {
 			addrs = []string{"192.0.2.99:443"}
 			bs = []c18Behaviour{{Kind: "ok", Addr: addrs[0], Filtered: true}}
 		}
+		ifaceT := rapid.Bool().Draw(rt, "dialer_of_interface_type")
 		maxc := rapid.IntRange(0, 4).Draw(rt, "maxconc")
 		delay := []time.Duration{0, 10 * time.Millisecond, time.Second, 5 * time.Second}[rapid.IntRange(0, 3).Draw(rt, "delay")]
 		timeout := []time.Duration{0, 50 * time.Millisecond, 2 * time.Second, 35 * time.Second}[rapid.IntRange(0, 3).Draw(rt, "timeout")]
@@ -126,7 +160,7 @@ func TestC18(t *testing.T) {
 		leak = guard(func() error {
 			synctest.Test(t, func(t *testing.T) {
 				start := time.Now()
-				d := &ech.Dialer[*fakeConn]{MaxConcurrency: maxc, ConcurrencyDelay: delay, Timeout: timeout, Resolver: ech.InsecureGoResolver()}
+				d := &c18Dialer{MaxConcurrency: maxc, ConcurrencyDelay: delay, Timeout: timeout, Resolver: ech.InsecureGoResolver(), Iface: ifaceT}
 				quiet := make(chan struct{}, 1)
 				signal := func() {
 					select {
@@ -262,7 +296,7 @@ func TestC18(t *testing.T) {
 			})
 			return nil
 		})
-		rp := map[string]any{"network": network, "targets": bs, "max_concurrency": maxc, "delay": delay.String(), "timeout": timeout.String(), "cancel_at": cancelAt.String()}
+		rp := map[string]any{"network": network, "targets": bs, "max_concurrency": maxc, "dialer_of_interface_type": ifaceT, "delay": delay.String(), "timeout": timeout.String(), "cancel_at": cancelAt.String()}
 		var evs []string
 		for _, e := range events {
 			evs = append(evs, fmt.Sprintf("%s[%d]@%v ok=%v ctxerr=%v dl=%v", e.Kind, e.Target, e.T, e.OK, e.CtxErr, e.Deadline))
